@@ -302,6 +302,15 @@ def run(r):
             gl = [(strip_all(a_), p_) for g, pol in e.ctx.guards for a_, p_ in _lits(strip_all(subst(g, pcan)), pol)]
             std = ("param", f"#{[x[0] for x in s.params].index('standardize')}")
             rep.ob("C18-COLS", q, any(g == std and pol for g, pol in gl), f"column {col} is only touched when standardize is true", w, expected="under `if standardize:`", found="unconditional" if not any(g == std for g, _ in gl) else "ok", key=f"standardize guard {col}")
+            # ... and by nothing else than the column being present: a condition on the options or on the cells decides for which inputs the
+            # column is standardised at all - whether the skipped inputs are fixed points of the standardiser is not for this analysis to say
+            table_params = {("param", f"#{[x[0] for x in s.params].index(n_)}") for n_ in ("df", "df_old", "col_mapper") if n_ in [x[0] for x in s.params]}
+            for g, pol in gl:
+                ps = {x for x in walk(g) if x[0] == "param"}
+                plain = g == std or (ps <= table_params and not any(x[0] == "sub" or (x[0] == "attr" and x[2] in ("str", "dropna", "astype", "all", "any", "isna", "notna", "map", "apply", "values")) for x in walk(g)))
+                if not plain:
+                    rep.require(False, f"{q}: the store into column {col} is guarded by {'' if pol else 'not '}{show(g, 70)}, a condition on options or cell contents; for which inputs the column is standardised cannot be decided [C18-COLS]")
+                    break
     # argument errors
     asp = r.A.summarize_source(SPEC, "args", "pyrepseq.io")
     cls_only = lambda t: "raise " + (strip(strip(t)[1])[1][1] if head(strip(t)) == "raise" and head(strip(strip(t)[1])) == "call" else "?") if head(strip(t)) == "raise" else "value"
